@@ -14,7 +14,7 @@ from vf.core import choice as choice_mod
 from vf.core import gen, thrx
 from vf.core.runner import Part
 
-RUN_TIMEOUT = 35  # virtual seconds: Orchestrator._process_event waits a hard-coded 20 s timer when agents are not 'running' yet
+RUN_TIMEOUT = 45  # virtual seconds: Orchestrator._process_event waits a hard-coded 20 s timer when agents are not 'running' yet
 
 
 def deployments(tier):
@@ -42,7 +42,16 @@ def jobs_for(tier):
         hosts = [a for a in dep["agents"]]
         for r in range(1, dep["k"] + 1):
             for removed in itertools.combinations(hosts, r):
-                out.append(dict(dep, removed=list(removed)))
+                out.append(dict(dep, removed=list(removed), events=[list(removed)]))
+    # two successive events (each within k): the second one removes any of the survivors, in particular the new host
+    for dep in deployments(tier):
+        if dep["k"] != 1 or len(dep["agents"]) != 4 or dep["algo"] != "adsa":
+            continue
+        firsts = ["a1"] if tier == "quick" else dep["agents"]
+        for first in firsts:
+            for second in dep["agents"]:
+                if second != first:
+                    out.append(dict(dep, name=dep["name"] + "-2events", removed=[first, second], events=[[first], [second]]))
     return out
 
 
@@ -80,6 +89,9 @@ class Probe:
             }
             probe.event_at = len(thrx.cur().taken)
             probe.draw_at_event = len(choice_mod.CURRENT.taken)
+            if not hasattr(probe, "first_event_at"):
+                probe.first_event_at, probe.first_draw_at = probe.event_at, probe.draw_at_event
+            probe.removed_so_far = getattr(probe, "removed_so_far", []) + [a.args["agent"] for a in msg.content.actions if a.type == "remove_agent"]
             return o_evt(mgt, msg, t)
 
         Mgt._orchestrator_scenario_event = evt
@@ -140,7 +152,7 @@ def scenario_for(job, probe, draws=()):
 
             def observer():
                 # once the repair for the event completes, let the queues drain for one virtual second, then look
-                thrx.cur().block(lambda: bool(probe.repairs), None, "observer.wait")
+                thrx.cur().block(lambda: len(probe.repairs) >= len(job["events"]), None, "observer.wait")
                 thrx.vsleep(1.0)
                 mgt = probe.mgt
                 comps = sorted(n.name for n in mgt.graph.nodes)
@@ -153,15 +165,17 @@ def scenario_for(job, probe, draws=()):
 
             obs = thrx.VThread(target=observer, name="observer", daemon=True)
             obs.start()
-            sc = Scenario([
-                DcopEvent("init", delay=1),
-                DcopEvent("e1", actions=[EventAction("remove_agent", agent=a) for a in job["removed"]]),
-                DcopEvent("end", delay=4),
-            ])
+            evts = [DcopEvent("init", delay=1)]
+            for i, removed in enumerate(job["events"]):
+                if i:
+                    evts.append(DcopEvent(f"d{i}", delay=3))
+                evts.append(DcopEvent(f"e{i}", actions=[EventAction("remove_agent", agent=a) for a in removed]))
+            evts.append(DcopEvent("end", delay=4))
+            sc = Scenario(evts)
             orch.run(sc, timeout=RUN_TIMEOUT)
             return {"ready": ready, "status": orch.status, "snap": snap, "before": probe.before, "repairs": [r[0] for r in probe.repairs],
-                    "window": (probe.event_at, probe.repairs[0][1] if probe.repairs else None),
-                    "draw_window": (getattr(probe, "draw_at_event", None), probe.repairs[0][3] if probe.repairs else None),
+                    "window": (getattr(probe, "first_event_at", None), probe.repairs[-1][1] if probe.repairs else None),
+                    "draw_window": (getattr(probe, "first_draw_at", None), probe.repairs[-1][3] if probe.repairs else None),
                     "draws": list(ctl.taken), "draw_arity": list(ctl.arity)}
         finally:
             probe.uninstall()
@@ -180,7 +194,7 @@ def judge(job, tag, choices, draws, result, outcome, part, files):
     if outcome["abort"]:
         part.violation(f"C27|no-termination|{outcome['abort'][0]}", f"{where}: {outcome['abort'][1]}", case)
         return "abort"
-    if not result["repairs"] or not result["snap"]:
+    if len(result["repairs"]) < len(job["events"]) or not result["snap"]:
         part.violation("C27|repair-never-completed", f"{where}: no repair completion was reported before the run ended (status {result['status']}); thread errors {outcome['thread_errors']}", case)
         return "no-repair"
     snap, before = result["snap"], result["before"]
@@ -194,9 +208,9 @@ def judge(job, tag, choices, draws, result, outcome, part, files):
         elif actual != [h]:
             kind = "hosted-by-nobody" if not actual else ("hosted-twice" if len(actual) > 1 else "directory-disagrees-with-agents")
             problems.append((kind, c, h, actual))
-        if before["hosts"].get(c) in job["removed"] and isinstance(h, str) and h not in before["replicas"].get(c, []) and not h.startswith("<"):
+        if before["hosts"].get(c) in job["events"][-1] and isinstance(h, str) and h not in before["replicas"].get(c, []) and not h.startswith("<"):
             problems.append(("new-host-held-no-replica", c, h, before["replicas"].get(c)))
-    status = result["repairs"][0]
+    status = result["repairs"][-1]
     fstatus = files.get("status")
     if problems:
         kinds = sorted({p[0] for p in problems})
